@@ -347,3 +347,13 @@ package io
 //@   ensures[end] whence == io.SeekEnd && err == nil ==> result0 == int64(res("call:dagReader.Size#0")) + offset && dr.offset == result0
 //@   ensures[unknown_whence] whence != io.SeekStart && whence != io.SeekCurrent && whence != io.SeekEnd ==> err != nil && dr.offset == old(dr.offset)
 //@   ensures[never_negative] err == nil && old(dr.offset) >= 0 ==> result0 >= 0
+
+// ---- C17: SetStat records mode and mtime for later conversions and touches nothing else ---------------
+// (it does not rewrite the node, so the estimate of the node's serialized size must stay as it is)
+//@ func (*BasicDirectory).SetStat
+//@   prop C17
+//@   arith bv
+//@   requires d != nil
+//@   modifies d.mode, d.mtime
+//@   ensures[mode_recorded] mode > 0 ==> d.mode == mode
+//@   ensures[mode_kept_otherwise] !(mode > 0) ==> d.mode == old(d.mode)
